@@ -9,7 +9,7 @@ Full-strength statement (the property), for every option set `o`:
 The code deviates in six classes, each with a kernel-checked witness below:
     NilAtCycle (DESIGN §7 #19), HasQuoted (#32), DupNames, Dangling, WrongComponent, RecContainer (round 3).
 -/
-import KinModel.Lemmas.C18Gen
+import KinModel.Lemmas.C18Fin
 namespace KinModel.Gen3
 
 /-- The executable oracle used by the driver is the specification: `acceptB` decides `Sat`. -/
@@ -113,6 +113,16 @@ theorem gen_sound_partial (Δ : Decls) (o : Opts) (fuel : Nat) (t : GoType) (s :
   rw [← he] at hn ⊢
   exact encode_sound_partial Δ (typeName o) Γ (stripPtr t) s v' hΓ hinj (relS_mono hmono s _ hr) hv'
     (by unfold HasQuoted at hq ⊢; rwa [heredAll_strip]) (by unfold DupNames at hd ⊢; rwa [heredAll_strip]) hn
+
+/-- **"Schemas generated for recursive types are finite"** — the generator terminates on every type graph, for every
+option set: with `enoughFuel Δ t` fuel (a bound computed from the declarations: along the parent chain every declared
+struct is entered at most once; between two declared structs the recursion descends into the type) the model never
+runs out of fuel, and it never reports `diverge` (generateCycleSchemaRef recursing forever, a fatal stack overflow in
+Go) unless the type contains a self-recursive container type `type L []L` / `type M map[string]M` (`RecContainer`,
+finding F-C18-6, witness below). No hypothesis on the declarations: cyclic, mutually recursive, undeclared names. -/
+theorem gen_finite (Δ : Decls) (o : Opts) (t : GoType) (fuel : Nat) (h : enoughFuel Δ t ≤ fuel) :
+    (genRoot Δ o fuel t).1 ≠ .nofuel ∧ (¬ RecContainer Δ t → (genRoot Δ o fuel t).1 ≠ .diverge) :=
+  ⟨gen_enough_fuel Δ o t fuel h, fun hr => gen_no_diverge Δ o t hr fuel⟩
 
 /-- The integer bounds table admits every value of the kind (all ten kinds, extremes included). -/
 theorem int_bounds_admit (k : IntKind) (n : Int) (h : inRange k n = true) :
